@@ -303,12 +303,16 @@ fn eff_cases(rng: &mut Rng, n: usize) {
     }
   }
   for (c, rs, ri) in cases {
-    let r = guarded(move || efficiencies_from_counts(c * spdcalc::dim::ucum::HZ, rs * spdcalc::dim::ucum::HZ, ri * spdcalc::dim::ucum::HZ));
-    match r {
-      Ok(e) => emit(json!({"kind":"eff","c":fx(c),"rs":fx(rs),"ri":fx(ri),"symmetric":fx(e.symmetric),"signal":fx(e.signal),"idler":fx(e.idler),
-        "oc":fx(e.coincidences.value_unsafe),"ors":fx(e.signal_singles.value_unsafe),"ori":fx(e.idler_singles.value_unsafe)})),
-      Err(p) => emit(json!({"kind":"eff_panic","c":fx(c),"rs":fx(rs),"ri":fx(ri),"panic":p})),
-    }
+    eff_one(c, rs, ri);
+  }
+}
+
+fn eff_one(c: f64, rs: f64, ri: f64) {
+  let r = guarded(move || efficiencies_from_counts(c * spdcalc::dim::ucum::HZ, rs * spdcalc::dim::ucum::HZ, ri * spdcalc::dim::ucum::HZ));
+  match r {
+    Ok(e) => emit(json!({"kind":"eff","c":fx(c),"rs":fx(rs),"ri":fx(ri),"symmetric":fx(e.symmetric),"signal":fx(e.signal),"idler":fx(e.idler),
+      "oc":fx(e.coincidences.value_unsafe),"ors":fx(e.signal_singles.value_unsafe),"ori":fx(e.idler_singles.value_unsafe)})),
+    Err(p) => emit(json!({"kind":"eff_panic","c":fx(c),"rs":fx(rs),"ri":fx(ri),"panic":p})),
   }
 }
 
@@ -481,6 +485,12 @@ pub fn run(args: &[String]) {
   }
   if args.first().map(|s| s.as_str()) == Some("corpus") {
     corpus(args);
+    return;
+  }
+  if args.first().map(|s| s.as_str()) == Some("eff") {
+    // `c08 eff <c_bits> <rs_bits> <ri_bits>`: one rate triple (replay)
+    let h = |i: usize| f64::from_bits(u64::from_str_radix(args.get(i).map(|s| s.as_str()).unwrap_or("0x0").trim_start_matches("0x"), 16).unwrap_or(0));
+    eff_one(h(1), h(2), h(3));
     return;
   }
   let seed = arg_u64(args, 0, 1);
